@@ -6,8 +6,10 @@
 (* bases[c] = the ordered list of base classes written in the class        *)
 (* statement of c, plus a module layout (one module, or two modules with   *)
 (* the bases of the second reached through an import, a renamed import, a  *)
-(* module attribute or a re-exporting third module), and - chosen after    *)
+(* module attribute or one / two re-exporting modules), and - chosen after *)
 (* the orders are known - a placement of members has[c] \subseteq Mem.     *)
+(* The bounds of a run are a set of jobs (QuickJobs, ThoroughJobs, SimJobs *)
+(* below; the cfg picks one with `Jobs <- ...`): one TLC run covers them.  *)
 (*                                                                         *)
 (* Impl (transcription of the code, one action per statement group):       *)
 (*   Class.mro / Class._mro      models.py   recursion as an explicit      *)
@@ -34,15 +36,50 @@
 (***************************************************************************)
 EXTENDS Naturals, Sequences, FiniteSets, TLC, Json
 
-CONSTANTS N,          \* number of classes C1 .. CN
-          MaxBases,   \* at most that many bases per class statement
-          Domain,     \* "dag":  bases among the classes defined earlier, no duplicates (CPython can execute it)
-                      \* "free": bases among the *other* classes, duplicates allowed (cycles, forward references)
-                      \* "self": bases among all classes (a class may also name itself)
-          Mem,        \* member names that may be declared in class bodies
-          Layouts,    \* subset of {"one", "from", "as", "attr", "chain"}
-          StepBound,  \* the whole run must finish within that many steps (termination)
+CONSTANTS Jobs,       \* the case spaces explored by this run: a set of Job(...) records (QuickJobs, ThoroughJobs ...)
+          StepBound,  \* every run of the machine must finish within that many steps (termination)
           Emit
+
+\* A job bounds one case space:
+\*   n        number of classes C1 .. Cn
+\*   maxb     at most that many bases per class statement
+\*   domain   "dag":  bases among the classes defined earlier, no duplicates (CPython can execute it as written)
+\*            "free": bases among the *other* classes, duplicates allowed (cycles, forward references)
+\*            "self": bases among all classes (a class may also name itself)
+\*   mem      member names that may be declared in class bodies (every placement is explored)
+\*   layouts  subset of {"one", "from", "as", "attr", "chain", "chain2"} (every split point is explored)
+Job(name, n, maxb, domain, mem, layouts) ==
+  [name |-> name, n |-> n, maxb |-> maxb, domain |-> domain, mem |-> mem, layouts |-> layouts]
+One == {"one"}
+Split == {"from", "as", "attr", "chain", "chain2"}
+QuickJobs ==
+  { Job("dag5", 5, 2, "dag", {}, One),              \* 1 700 hierarchies (<= 2 bases), orders only
+    Job("dag4", 4, 3, "dag", {"m1"}, One),          \* 160 hierarchies x 16 placements
+    Job("dag3", 3, 3, "dag", {"m1", "m2"}, One),    \* 10 x 64
+    Job("free3", 3, 3, "free", {}, One),            \* 3 375 hierarchies (cycles, forward references, duplicates)
+    Job("free3m", 3, 2, "free", {"m1"}, One),       \* 343 x 8
+    Job("self2", 2, 3, "self", {"m1"}, One),        \* 225 x 4
+    Job("split4", 4, 3, "dag", {}, Split),          \* 160 x 5 layouts x 3 split points
+    Job("split3", 3, 3, "dag", {"m1"}, Split),      \* 10 x 10 x 8
+    Job("splitfree3", 3, 2, "free", {}, Split) }    \* 343 x 10
+\* thorough: one TLC run per job (the driver replays a job while TLC explores the next one)
+T_dag5 == { Job("dag5", 5, 3, "dag", {"m1"}, One) }                  \* 6 560 hierarchies x 32 placements
+T_dag4 == { Job("dag4", 4, 3, "dag", {"m1", "m2"}, One) }            \* 160 x 256
+T_free3 == { Job("free3", 3, 3, "free", {"m1"}, One) }               \* 3 375 x 8
+T_free4 == { Job("free4", 4, 2, "free", {}, One) }                   \* 28 561
+T_self3 == { Job("self3", 3, 2, "self", {"m1"}, One) }               \* 2 197 x 8
+T_split4 == { Job("split4", 4, 3, "dag", {"m1"}, Split) }            \* 2 400 x 16
+T_splitfree3 == { Job("splitfree3", 3, 2, "free", {"m1"}, Split) }   \* 3 430 x 8
+ThoroughJobs == T_dag5 \cup T_dag4 \cup T_free3 \cup T_free4 \cup T_self3 \cup T_split4 \cup T_splitfree3
+SimJobs == { Job("sim6", 6, 3, "dag", {"m1"}, One) }   \* 564 160 hierarchies: sampled with -simulate
+TinyJobs == { Job("dag3", 3, 3, "dag", {"m1"}, One), Job("free2", 2, 2, "free", {"m1"}, Split) }
+
+VARIABLE job          \* the job this behaviour belongs to (chosen by Init, never changes)
+N == job.n
+MaxBases == job.maxb
+Domain == job.domain
+Mem == job.mem
+Layouts == job.layouts
 
 Classes == 1..N
 NoClass == 0
@@ -54,15 +91,15 @@ Min(S) == CHOOSE x \in S : \A y \in S : x <= y
 
 VARIABLES bases, layout, cut,                    \* the case
           has,                                   \* member placement (PlaceMembers)
-          pc, steps,
+          pc, steps, fired,                      \* control; observation: steps taken, actions taken
           root, stack, exc, mro,                 \* Class.mro machine; mro[c] = result of C<c>.mro()
           refmro, refext, refcyc,                \* reference, stored once (TLC does not memoise operators)
           ic, folding, rev, inh, allm, refattr   \* inherited_members / all_members machine
-casevars == <<bases, layout, cut>>
+casevars == <<job, bases, layout, cut>>
 mrovars == <<root, stack, exc, mro>>
 refvars == <<refmro, refext, refcyc>>
 memvars == <<has, ic, folding, rev, inh, allm, refattr>>
-vars == <<casevars, pc, steps, mrovars, refvars, memvars>>
+vars == <<casevars, pc, steps, fired, mrovars, refvars, memvars>>
 
 \* ---- case space ------------------------------------------------------------------------------------
 Pool(c) == CASE Domain = "dag" -> 1..(c - 1)
@@ -77,14 +114,19 @@ Hier(k) == IF k = 0 THEN {<<>>} ELSE {Append(h, b) : h \in Hier(k - 1), b \in Ba
 ModOf(c) == IF layout = "one" \/ c > cut THEN "ma" ELSE "mb"
 \* Expr.canonical_path of the base expression naming class b inside the class statement of c.  A name
 \* imported with `from mb import Cb [as Kb]` or written `mb.Cb` is resolved by the expression itself;
-\* with "chain" the name is imported from mc, which only re-exports it: the path denotes an Alias.
+\* with "chain" the name is imported from mc, which only re-exports it (`from mb import Cb`): the path
+\* denotes an Alias; with "chain2" it is imported from md, which re-exports mc's re-export (two hops).
 BasePath(c, b) == IF ModOf(b) = ModOf(c) THEN <<ModOf(c), b>>
-                  ELSE IF layout = "chain" THEN <<"mc", b>> ELSE <<ModOf(b), b>>
+                  ELSE CASE layout = "chain" -> <<"mc", b>>
+                         [] layout = "chain2" -> <<"md", b>>
+                         [] OTHER -> <<ModOf(b), b>>
 \* ModulesCollection.get_member(path)
-Member(p) == IF p[1] = "mc" THEN [kind |-> "alias", at |-> <<ModOf(p[2]), p[2]>>]
-             ELSE [kind |-> "class", at |-> p]
-\* `if resolved_base.is_alias: resolved_base = resolved_base.final_target`
-FinalTarget(o) == IF o.kind = "alias" THEN Member(o.at) ELSE o
+Member(p) == CASE p[1] = "md" -> [kind |-> "alias", at |-> <<"mc", p[2]>>]
+               [] p[1] = "mc" -> [kind |-> "alias", at |-> <<ModOf(p[2]), p[2]>>]
+               [] OTHER -> [kind |-> "class", at |-> p]
+\* `if resolved_base.is_alias: resolved_base = resolved_base.final_target`  (follows every hop)
+RECURSIVE FinalTarget(_)
+FinalTarget(o) == IF o.kind = "alias" THEN FinalTarget(Member(o.at)) ELSE o
 \* Class.resolved_bases followed by the `is_class` filter of _mro (every base is a class here)
 ResolvedBases(c) == [i \in 1..Len(bases[c]) |-> FinalTarget(Member(BasePath(c, bases[c][i]))).at[2]]
 \* names under which class b is visible as an import alias in the *other* module (Alias views of a class)
@@ -144,11 +186,12 @@ Frame(c, seen) == [cls |-> c, seen |-> seen, bs |-> <<>>, phase |-> "enter", i |
                    lins |-> <<>>, lists |-> <<>>, result |-> <<>>]
 
 Init ==
+  /\ job \in Jobs
   /\ bases \in Hier(N)
   /\ layout \in Layouts
   /\ cut \in (IF layout = "one" THEN {0} ELSE 1..(N - 1))
   /\ has = [c \in Classes |-> {}]
-  /\ pc = "ref" /\ steps = 0
+  /\ pc = "ref" /\ steps = 0 /\ fired = {}
   /\ root = 1 /\ stack = <<>> /\ exc = "none" /\ mro = [c \in Classes |-> Pending]
   /\ refmro = [c \in Classes |-> Rejected] /\ refext = [c \in Classes |-> FALSE] /\ refcyc = [c \in Classes |-> FALSE]
   /\ ic = 1 /\ folding = FALSE /\ rev = <<>>
@@ -156,16 +199,16 @@ Init ==
   /\ allm = [c \in Classes |-> [m \in Mem |-> NoClass]]
   /\ refattr = [c \in Classes |-> [m \in Mem |-> NoClass]]
 
-Tick == steps' = steps + 1
+Tick(a) == steps' = steps + 1 /\ fired' = fired \cup {a}
 
 \* the reference is evaluated first and stored
 Reference ==
-  /\ pc = "ref" /\ pc' = "ext" /\ Tick
+  /\ pc = "ref" /\ pc' = "ext" /\ Tick("Reference")
   /\ refmro' = [c \in Classes |-> PyLin(c, {})]
   /\ refcyc' = [c \in Classes |-> Cyclic(c)]
   /\ UNCHANGED <<casevars, mrovars, refext, memvars>>
 Extension ==
-  /\ pc = "ext" /\ pc' = "mro" /\ Tick
+  /\ pc = "ext" /\ pc' = "mro" /\ Tick("Extension")
   /\ refext' = [c \in Classes |-> ExistsExt(c)]
   /\ UNCHANGED <<casevars, mrovars, refmro, refcyc, memvars>>
 
@@ -176,7 +219,7 @@ InMro == pc = "mro" /\ exc = "none" /\ stack # <<>>
 \* Class.mro():  return self._mro()[1:]
 CallMro ==
   /\ pc = "mro" /\ exc = "none" /\ stack = <<>> /\ root <= N
-  /\ stack' = <<Frame(root, <<>>)>> /\ Tick
+  /\ stack' = <<Frame(root, <<>>)>> /\ Tick("CallMro")
   /\ UNCHANGED <<casevars, pc, root, exc, mro, refvars, memvars>>
 
 \* `return v` of the top frame: the caller appends it to the linearisations it collects; the outermost
@@ -194,7 +237,7 @@ Raise(why) == /\ exc' = why /\ stack' = SubSeq(stack, 1, Len(stack) - 1) /\ UNCH
 
 \* seen = (*seen, self.path); bases = [b for b in self.resolved_bases if b.is_class]; if not bases: return [self]
 MroEnter ==
-  /\ InMro /\ Top.phase = "enter" /\ Tick
+  /\ InMro /\ Top.phase = "enter" /\ Tick("MroEnter")
   /\ LET f == Top
          bs == ResolvedBases(f.cls)
      IN  IF bs = <<>> THEN ReturnValue(<<f.cls>>)
@@ -204,7 +247,7 @@ MroEnter ==
 
 \* for base in bases: if base.path in seen: raise ValueError(... inheritance cycle detected ...)
 MroCycleCheck ==
-  /\ InMro /\ Top.phase = "cycle" /\ Tick
+  /\ InMro /\ Top.phase = "cycle" /\ Tick("MroCycleCheck")
   /\ IF \E i \in 1..Len(Top.bs) : Top.bs[i] \in Range(Top.seen)
      THEN Raise("cycle")
      ELSE /\ stack' = SetTop([Top EXCEPT !.phase = "recurse"]) /\ UNCHANGED <<root, exc, mro>>
@@ -212,13 +255,13 @@ MroCycleCheck ==
 
 \* [base._mro(seen) for base in bases]  - one recursive call per base, `seen` passed down
 MroRecurse ==
-  /\ InMro /\ Top.phase = "recurse" /\ Top.i <= Len(Top.bs) /\ Tick
+  /\ InMro /\ Top.phase = "recurse" /\ Top.i <= Len(Top.bs) /\ Tick("MroRecurse")
   /\ stack' = Append(stack, Frame(Top.bs[Top.i], Top.seen))
   /\ UNCHANGED <<casevars, pc, root, exc, mro, refvars, memvars>>
 
 \* c3linear_merge(*linearisations, bases):  result = []; linearizations = _DependencyList(*lists)
 MergeStart ==
-  /\ InMro /\ Top.phase = "recurse" /\ Top.i > Len(Top.bs) /\ Tick
+  /\ InMro /\ Top.phase = "recurse" /\ Top.i > Len(Top.bs) /\ Tick("MergeStart")
   /\ stack' = SetTop([Top EXCEPT !.phase = "merge", !.lists = Append(Top.lins, Top.bs), !.result = <<>>])
   /\ UNCHANGED <<casevars, pc, root, exc, mro, refvars, memvars>>
 
@@ -233,39 +276,39 @@ TotalLen(ls) == IF ls = <<>> THEN 0 ELSE LET RECURSIVE Sum(_) Sum(k) == IF k = 0
 
 \* if linearizations.exhausted: return result          (then _mro returns [self, *result])
 MergeExhausted ==
-  /\ InMro /\ Top.phase = "merge" /\ Exhausted(Top.lists) /\ Tick
+  /\ InMro /\ Top.phase = "merge" /\ Exhausted(Top.lists) /\ Tick("MergeExhausted")
   /\ ReturnValue(<<Top.cls>> \o Top.result)
   /\ UNCHANGED <<casevars, pc, refvars, memvars>>
 \* first qualifying head: result.append(head); linearizations.remove(head); break
 MergePick ==
-  /\ InMro /\ Top.phase = "merge" /\ ~Exhausted(Top.lists) /\ GoodHeads(Top.lists) # {} /\ Tick
+  /\ InMro /\ Top.phase = "merge" /\ ~Exhausted(Top.lists) /\ GoodHeads(Top.lists) # {} /\ Tick("MergePick")
   /\ LET h == Heads(Top.lists)[Min(GoodHeads(Top.lists))]
      IN  stack' = SetTop([Top EXCEPT !.result = Append(Top.result, h), !.lists = Remove(h, Top.lists)])
   /\ UNCHANGED <<casevars, pc, root, exc, mro, refvars, memvars>>
 \* for/else: raise ValueError("Cannot compute C3 linearization")
 MergeFail ==
-  /\ InMro /\ Top.phase = "merge" /\ ~Exhausted(Top.lists) /\ GoodHeads(Top.lists) = {} /\ Tick
+  /\ InMro /\ Top.phase = "merge" /\ ~Exhausted(Top.lists) /\ GoodHeads(Top.lists) = {} /\ Tick("MergeFail")
   /\ Raise("merge")
   /\ UNCHANGED <<casevars, pc, refvars, memvars>>
 
 \* nothing in _mro catches the ValueError: every frame is left in turn
 Unwind ==
-  /\ pc = "mro" /\ exc # "none" /\ stack # <<>> /\ Tick
+  /\ pc = "mro" /\ exc # "none" /\ stack # <<>> /\ Tick("Unwind")
   /\ stack' = SubSeq(stack, 1, Len(stack) - 1)
   /\ UNCHANGED <<casevars, pc, root, exc, mro, refvars, memvars>>
 MroFailed ==       \* the caller of mro() sees the ValueError
-  /\ pc = "mro" /\ exc # "none" /\ stack = <<>> /\ Tick
+  /\ pc = "mro" /\ exc # "none" /\ stack = <<>> /\ Tick("MroFailed")
   /\ mro' = [mro EXCEPT ![root] = [ok |-> FALSE, order |-> <<>>, why |-> exc]]
   /\ exc' = "none" /\ root' = root + 1
   /\ UNCHANGED <<casevars, pc, stack, refvars, memvars>>
 MroAllDone ==
-  /\ pc = "mro" /\ exc = "none" /\ stack = <<>> /\ root = N + 1 /\ Tick
+  /\ pc = "mro" /\ exc = "none" /\ stack = <<>> /\ root = N + 1 /\ Tick("MroAllDone")
   /\ pc' = "place"
   /\ UNCHANGED <<casevars, mrovars, refvars, memvars>>
 
 \* ---- members ---------------------------------------------------------------------------------------
 PlaceMembers ==
-  /\ pc = "place" /\ Tick
+  /\ pc = "place" /\ Tick("PlaceMembers")
   /\ has' \in [Classes -> SUBSET Mem]
   /\ pc' = "inh"
   /\ UNCHANGED <<casevars, mrovars, refvars, ic, folding, rev, inh, allm, refattr>>
@@ -273,7 +316,7 @@ PlaceMembers ==
 \* Object.inherited_members of class ic:
 \*   try: mro = self.mro()  except ValueError: return {}          inherited_members = {}
 InheritedStart ==
-  /\ pc = "inh" /\ ic <= N /\ ~folding /\ Tick
+  /\ pc = "inh" /\ ic <= N /\ ~folding /\ Tick("InheritedStart")
   /\ IF mro[ic].ok
      THEN /\ folding' = TRUE /\ rev' = Rev(mro[ic].order) /\ ic' = ic       \* reversed(mro)
      ELSE /\ folding' = FALSE /\ rev' = <<>> /\ ic' = ic + 1
@@ -281,7 +324,7 @@ InheritedStart ==
 \*   for base in reversed(mro): for name, member in base.members.items():
 \*       if name not in self.members: inherited_members[name] = Alias(name, member, parent=self, inherited=True)
 InheritedFold ==
-  /\ pc = "inh" /\ folding /\ rev # <<>> /\ Tick
+  /\ pc = "inh" /\ folding /\ rev # <<>> /\ Tick("InheritedFold")
   /\ LET base == rev[1] IN
      inh' = [inh EXCEPT ![ic] = [m \in Mem |->
                 IF m \in has[base] /\ m \notin has[ic]
@@ -289,12 +332,12 @@ InheritedFold ==
   /\ rev' = Tail(rev)
   /\ UNCHANGED <<casevars, pc, mrovars, refvars, has, ic, folding, allm, refattr>>
 InheritedReturn ==
-  /\ pc = "inh" /\ folding /\ rev = <<>> /\ Tick
+  /\ pc = "inh" /\ folding /\ rev = <<>> /\ Tick("InheritedReturn")
   /\ folding' = FALSE /\ ic' = ic + 1
   /\ UNCHANGED <<casevars, pc, mrovars, refvars, has, rev, inh, allm, refattr>>
 \* all_members = {**self.inherited_members, **self.members};  __getitem__(name) = all_members[name]
 AllMembers ==
-  /\ pc = "inh" /\ ic = N + 1 /\ Tick
+  /\ pc = "inh" /\ ic = N + 1 /\ Tick("AllMembers")
   /\ allm' = [c \in Classes |-> [m \in Mem |-> IF m \in has[c] THEN c ELSE inh[c][m].owner]]
   /\ refattr' = [c \in Classes |-> [m \in Mem |-> PyGetattr(c, m)]]
   /\ pc' = "done"
@@ -343,11 +386,14 @@ InheritedAliasShape == Done => \A c \in Classes : \A m \in Mem : inh[c][m].owner
                           /\ inh[c][m].owner \in Range(mro[c].order) /\ m \in has[inh[c][m].owner]
 NothingWhenUncomputable == Done => \A c \in Classes : ~mro[c].ok => \A m \in Mem : inh[c][m] = NoAlias
 
+AllActions == {"Reference", "Extension", "CallMro", "MroEnter", "MroCycleCheck", "MroRecurse", "MergeStart", "MergeExhausted",
+               "MergePick", "MergeFail", "Unwind", "MroFailed", "MroAllDone", "PlaceMembers", "InheritedStart", "InheritedFold",
+               "InheritedReturn", "AllMembers"}
 EmitCase ==
   (Emit /\ Done) =>
-     PrintT(<<"CASE", ToJson([n |-> N, domain |-> Domain, bases |-> bases, layout |-> layout, cut |-> cut,
+     PrintT(<<"CASE", ToJson([job |-> job.name, n |-> N, domain |-> Domain, bases |-> bases, layout |-> layout, cut |-> cut,
                               mods |-> [c \in Classes |-> ModOf(c)],
                               views |-> [c \in Classes |-> AliasViews(c)],
-                              has |-> has, mro |-> mro, ref |-> refmro, ext |-> refext, cyc |-> refcyc,
-                              inh |-> inh, all |-> allm, attr |-> refattr, steps |-> steps])>>)
+                              has |-> has, mro |-> mro, ref |-> refmro, cyc |-> refcyc,
+                              inh |-> inh, attr |-> refattr, unfired |-> AllActions \ fired])>>)
 =============================================================================
